@@ -198,6 +198,10 @@ impl World {
                                     let (b, c) = rest.split_at(rest.len() / 2);
                                     a.chain(b).chain(c)
                                 }))
+                            } else if (*uid & 4) == 4 {
+                                // an iterator whose size hint is inexact (upper bound unknown to the callee)
+                                let mut it = payloads.iter();
+                                log.append_records(&names[*q], *pos, std::iter::from_fn(move || it.next().map(|p| &p[..])))
                             } else {
                                 log.append_records(&names[*q], *pos, payloads.iter().map(|p| &p[..]))
                             };
